@@ -5,6 +5,7 @@
                              closures (pyrx, from PotentialTools/integrals.py);
       GenC20.ThermalSumGen   potentialOneLoopThermal and the enum EImaginaryOption
                              (from PotentialTools/effectivePotentialNoResum.py);
+      GenC20.Ctors           how the two constructors pass their parameters to the base class;
       GenC20.TabJb / TabJf   the 10000 rows of the two shipped data files, as exact rationals.
     External (never axioms): scipy's quad is the record field [quad]/[quad_inf] of Integrands.env;
     the integrals object used by the potential is the record ThermalSumGen.env (fields Jb, Jf);
@@ -12,7 +13,7 @@
     (validated numerically by the harness). *)
 From Coq Require Import Reals Lra List ZArith Bool Lia.
 From WG Require Import Lib.NumpySem Lib.ThermalTrig Lib.ThermalSum Lib.ThermalTables Lib.ThermalClosed.
-From GenC20 Require Integrands ThermalSumGen TabJb TabJf.
+From GenC20 Require Integrands ThermalSumGen TabJb TabJf Ctors.
 Import ListNotations.
 Local Open Scope R_scope.
 
@@ -577,6 +578,25 @@ Example regions_nonempty :
    50 <= count_windows region_Jf_low JfRows)%nat.
 Proof. repeat split; apply Nat.leb_le; vm_compute; reflexivity. Qed.
 
+(** * 5. constructors: every parameter of InterpolatableFunction.__init__ (in particular
+    bUseAdaptiveInterpolation) receives the same-named parameter of JbIntegral / JfIntegral.__init__;
+    otherwise an object built with bUseAdaptiveInterpolation=False silently answers from an
+    adaptively built spline after 500 evaluations *)
+Theorem constructors_forward :
+  (forall j name, nth_error Ctors.BaseCtorParams j = Some name ->
+     exists i, nth_error Ctors.JbForward j = Some (Some i) /\
+               nth_error Ctors.JbCtorParams i = Some name) /\
+  (forall j name, nth_error Ctors.BaseCtorParams j = Some name ->
+     exists i, nth_error Ctors.JfForward j = Some (Some i) /\
+               nth_error Ctors.JfCtorParams i = Some name) /\
+  In ADAPTIVE_PARAM Ctors.BaseCtorParams.
+Proof.
+  split; [|split].
+  - apply forwards_all_sound. vm_compute. reflexivity.
+  - apply forwards_all_sound. vm_compute. reflexivity.
+  - vm_compute. tauto.
+Qed.
+
 (** * obligations *)
 Local Open Scope R_scope.
 Theorem neg_branch_real : forall (e : I.env) x y,
@@ -689,6 +709,8 @@ Theorem heavy_mass_suppressed : forall (e : S.env) opt mB nB mF nF T X delta,
     Rabs v <= delta * (sumR (map Rabs nB) + sumR (map Rabs nF)) * T ^ 4 / (2 * PI * PI).
 Proof. exact heavy_suppressed. Qed.
 Print Assumptions heavy_mass_suppressed.
+
+Print Assumptions constructors_forward.
 
 Theorem tables_grid : table_grid JbRows /\ table_grid JfRows.
 Proof. exact (conj table_grid_Jb table_grid_Jf). Qed.
